@@ -15,6 +15,7 @@ import (
 	"github.com/olive-io/bpmn/v2/pkg/tracing"
 	"github.com/olive-io/bpmn/v2/verifrt"
 
+	"verif/harness/c11"
 	"verif/harness/drv"
 	"verif/harness/h"
 )
@@ -519,6 +520,12 @@ func init() {
 					out = append(out, &h.Scn{Name: fmt.Sprintf("C13/process/%s/moves<=2/d1", d.name), Body: procBody(d, 2), Opts: verifrt.Options{Bound: 1, UseCache: true}, Weight: 2000, Split: 8})
 				}
 			}
+		}
+		for _, d := range []int{0, 1} {
+			// two tokens at one cycle-timer catch event, the second arriving while a firing for
+			// the first is being delivered (the body is C11's, with the clock as the deliverer)
+			body := c11.StaggeredBody("timer", func(r *drv.Run) { r.Clock.Add(hour) }, drv.EventDef{Kind: "timer", Sub: "timeCycle", Ref: "R/PT1H"}, true)
+			out = append(out, &h.Scn{Name: fmt.Sprintf("C13/staggered/timer-cycle/d%d", d), Body: body, Opts: verifrt.Options{Bound: d, UseCache: true}, Weight: 50 * (1 + 30*d), Split: 1 + 3*d})
 		}
 		for _, d := range []int{0, 1} {
 			out = append(out, &h.Scn{Name: fmt.Sprintf("C13/two-instances/d%d", d), Body: twoInstancesBody(), Opts: verifrt.Options{Bound: d, UseCache: true}, Weight: 300 * (1 + 10*d), Split: 1 + 3*d})
